@@ -191,3 +191,31 @@ reg(
     "residual, initial-residual, metadata and delay-argument functions must agree with it on 3 grid points.",
     "Differential oracle (the default setting's meaning itself is C11's subject); finite grid.",
 )
+
+reg(
+    "C19",
+    "E4-enum",
+    "exploration",
+    "model families x option sets within distance 1 of {cache} / {codegen}; fresh Model vs CachedModel in canonical form",
+    "Eight model families (parameter-dependent attributes, positive/negative alias chains, delay, delay in a loop, several "
+    "delays with constant and parameter durations, String/Integer/Boolean, arrays, affine) under every option set within "
+    "distance 1 of {cache} (10 simplification switches, 5 other options, eliminable_variable_expression, two-option sets); "
+    "thorough adds {codegen} sets (compiled shared libraries). The model returned by the compiling call and the "
+    "CachedModel returned by the next call are reduced to names/order/shapes/Python types, every attribute at 2 parameter "
+    "points, outputs, delay states, alias relation, exposed delay arguments and the four functions at 2 points, and compared.",
+    "Fixed model families; 2 grid points; a case only counts when the second call really loaded the cache.",
+)
+
+reg(
+    "C20",
+    "E1-bfs",
+    "model_checking",
+    "explicit-state BFS over edit / option / version / transfer_model histories with a logical mtime clock",
+    "All histories up to length 5 (quick) / 7 (thorough) over: real transfer_model; rewrite Main.mo, Part.mo (second file in "
+    "the model folder) and the library file with variants A|B; add unrelated files to either folder; switch between "
+    "single-switch option sets (4 / 10); switch the pymoca version; (thorough) switch cache/codegen. Every edit gets the "
+    "next tick of a logical clock as mtime. Every transfer_model result must equal _compile_model of the current sources "
+    "and options, and a cache that was loaded must have been written for the current version and options.",
+    "mtime granularity is the logical tick; the premise 'edits are later than the cache' is built into the alphabet; "
+    "mtime_check=False and re-pointing library_folders at older files are outside the property.",
+)
